@@ -347,7 +347,10 @@ def api_clause(m, r, renames: dict, changed: dict, do_pickle: bool = True) -> li
                 bad("original ParameterValues lookup changed", key=k)
         except KeyError:
             bad("original ParameterValues lost a key", key=k)
-    if do_pickle:
+    # unpickling a SymPy tree rebuilds it through its constructors; that is the identity only on trees that are
+    # fixed points of rebuilding. A merge can leave e.g. Abs(1/x)**2 (x real) unevaluated inside a product that
+    # xreplace rebuilt only partially; whether pickle then normalises it is a matter of SymPy (C15), not of rename
+    if do_pickle and is_canonical(r):
         try:
             r2 = pickle.loads(pickle.dumps(r))
         except Exception as e:  # noqa: BLE001
